@@ -13,7 +13,7 @@ from control_common import gen_control_case, pick_target, pre_query, union, cano
 from plain import make_sd
 
 RULE = ("fresh diagram, random non-empty target (50% trap spaces), both strategies, size bound in {None,0,1,2,3}, random "
-        "forbidden sets, skip_feedforward on/off, successful_only on/off; lattice/expression/compose networks n<=5 quick; "
+        "forbidden sets, skip_feedforward on/off (literal tie of the target-directed expansion with the model), successful_only on/off; lattice/expression/compose networks n<=5 quick; "
         "non-trivial = at least two successions, or a step with two minimal driver sets, or a constraint removed a driver; "
         "distinct by case hash")
 ASSUMPTIONS = ["E3 AEON percolation = Sem.percolate (tie-checked)", "E8 networkx descendants / all_simple_paths"]
